@@ -25,6 +25,6 @@ PROP = {
                    "Kept as definitions: C11_corrupt_statement (composition of the region lemmas over a whole file) and "
                    "C11_block_seek_statement (binary search over restart points on bytes = position in the list; checked "
                    "by the block scripts of the correspondence and by ex_block_seek). Guards: key 1..65535 bytes, value "
-                   "< 2^32-1 bytes, file < 4 GB; outside them see C11_empty_key_refuted, C11_long_key_refuted and the "
+                   "< 2^32-1 bytes, file < 4 GB; outside them see C11_empty_key_ok (the empty key reads back since f30cabd), C11_long_key_refuted and the "
                    "corpus guard-* cases",
 }
